@@ -6,7 +6,8 @@ EXTENDS Builder, Json
 CONSTANTS NObj, MaxKids, Kinds
 Targets == (1..NObj) \cup {0 - s : s \in 1..Len(Scalars)}
 KidSeqs == UNION {[1..n -> Targets] : n \in 0..MaxKids}
-Graphs == [1..NObj -> [kind : Kinds, kids : KidSeqs]]
+Graphs == {g \in [1..NObj -> [kind : Kinds, kids : KidSeqs]] :
+              \A n \in 1..NObj : IsSetKind(g[n].kind) => \A i \in 1..Len(g[n].kids) : g[n].kids[i] < 0}
 OptSpace == [check : BOOLEAN, ignore : BOOLEAN]
 GenInit == G \in Graphs /\ root = 1 /\ opts \in OptSpace /\ Init0
 GenSpec == GenInit /\ [][Next]_bvars /\ WF_bvars(Next)
